@@ -19,6 +19,9 @@ CONFIGS = {
     "ram-overlay": dict(ram=(0x80000, 0x1000)),
     "rom-overlay": dict(romov=(0x30000, 0x800)),
     "rom+ram+romov": dict(rom=0x40000, ram=(0x80000, 0x1000), romov=(0x30000, 0x800)),
+    # overlapping overlays: a 4-byte ROM stub on the first bytes of a RAM window (the stub sorts first and wins)
+    "rom-stub-inside-ram-overlay": dict(ram=(0x80000, 0x1000), romov=(0x80000, 4)),
+    "rom-stub-in-the-middle-of-ram-overlay": dict(ram=(0x80000, 0x1000), romov=(0x80800, 3)),
     # overlays at an arbitrary (symbolic) start address, 1 and 3 bytes long
     "sym-rom-overlay-1": dict(romov=("sym", 1)),
     "sym-rom-overlay-3": dict(romov=("sym", 3), rom=0x40000),
@@ -109,7 +112,14 @@ def writable(cfg, c):
         ro.append(z3.And(z3.UGE(c, 0xC0000), z3.ULE(c, 0xFFFFF)))
     if cfg.get("romov"):
         s, n = cfg["romov"]
-        ro.append(z3.And(z3.UGE(c, T(s)), z3.ULT(c, T(s) + n)))
+        in_rom = z3.And(z3.UGE(c, T(s)), z3.ULT(c, T(s) + n))
+        if cfg.get("ram") and isinstance(s, int) and isinstance(cfg["ram"][0], int):
+            # overlapping overlays: the bus serves the overlay that sorts first by (start, end, name);
+            # a RAM window that sorts before the ROM stub shadows it where they overlap
+            rs, rn = cfg["ram"]
+            if (rs, rs + rn - 1, "extra_ram") < (s, s + n - 1, "extra_rom"):
+                in_rom = z3.And(in_rom, z3.Not(z3.And(z3.UGE(c, rs), z3.ULT(c, rs + rn))))
+        ro.append(in_rom)
     if cfg.get("card_present") is False or cfg.get("card_writable") is False:
         ro.append(z3.And(z3.UGE(c, 0x40000), z3.ULE(c, 0x4FFFF)))
     return z3.Not(z3.Or(ro)) if ro else z3.BoolVal(True)
